@@ -332,6 +332,34 @@ func c17effect(p *core.Prog, g, perCall, eff, fold *ssa.Function, doNew map[stri
 	if min != 1 || max != 1 {
 		return false, fmt.Sprintf("the request is issued %d..%d times per evaluation on paths without a serializer error (must be exactly 1)", min, max)
 	}
+	// the request's context is still alive when the request is made: its cancel function is deferred (or called
+	// afterwards), never called before the request
+	if cv, _ := core.Up(req.Call.Args[1], rstack); cv != nil {
+		if ex, isE := core.Resolve(cv).(*ssa.Extract); isE && ex.Index == 0 {
+			for _, r := range *ex.Tuple.Referrers() {
+				cx, isX := r.(*ssa.Extract)
+				if !isX || cx.Index != 1 {
+					continue
+				}
+				for _, u := range *cx.Referrers() {
+					if call, isCall := u.(*ssa.Call); isCall && call.Call.Value == ssa.Value(cx) {
+						// a plain (non-deferred) call of cancel: must not come before the request / the helper call leading to it
+						at := ssa.Instruction(req)
+						if len(rstack) > 0 && call.Parent() != req.Parent() {
+							for _, sc := range rstack {
+								if sc.Parent() == call.Parent() {
+									at = sc
+								}
+							}
+						}
+						if call.Parent() == at.Parent() && core.InstrDominates(call, at) {
+							return false, "the request context is cancelled before the request is made (cancel is called, not deferred): every evaluation fails with 'context canceled' and no request reaches the server"
+						}
+					}
+				}
+			}
+		}
+	}
 	args := req.Call.Args // (recv, ctx, header, method, url, [body, contentType])
 	// header = DefaultHeader.Clone()
 	hv, _ := core.Up(args[2], rstack)
@@ -373,6 +401,22 @@ func c17effect(p *core.Prog, g, perCall, eff, fold *ssa.Function, doNew map[stri
 		// body reader = nil or the serializer's first result
 		if all, some := fromSer(args[5], rstack, 0, core.IsNilConst); !all || !some || ser == nil {
 			return false, "the request body is not the serializer's output for the given body"
+		}
+		// the serializer runs exactly where a body was given: every absence test of the body on the way to it
+		// (fpgo.IsNil(body)) has the not-nil polarity
+		serBlocks := []*ssa.BasicBlock{ser.Block()}
+		for _, sc := range sstack {
+			serBlocks = append(serBlocks, sc.Block())
+		}
+		for _, sb := range serBlocks {
+			for _, cnd := range core.EdgeFacts(sb) {
+				n := core.Normalize(cnd)
+				if call, isC := n.V.(*ssa.Call); isC && n.True {
+					if h := core.Callee(&call.Call); h != nil && core.FuncName(h) == "fpgo.IsNil" {
+						return false, "the serializer is applied only when the body is nil: a given body is never serialised (the request goes out without it) and a nil body is handed to the serializer"
+					}
+				}
+			}
 		}
 		// serializer is applied to the captured body parameter of the per-call function
 		if bv, bst := core.Up(core.Unwrap(ser.Call.Args[0]), sstack); len(bst) != 0 || capturedBinding(perCall, eff, core.Path(core.Unwrap(bv))) != ssa.Value(perCall.Params[1]) {
